@@ -110,12 +110,21 @@ def main():
         ev = os.path.join(VERIF, 'evidence', pid + '.json')
         keep = open(ev, 'rb').read() if os.path.exists(ev) else None
         clear()
+        rdir = os.path.join(VERIF, 'replays', pid)
+        before = dict((fn, open(os.path.join(rdir, fn), 'rb').read()) for fn in os.listdir(rdir)) if os.path.isdir(rdir) else {}
         t0 = time.time()
         r = subprocess.run([os.path.join(VERIF, 'vcheck'), pid, tier], env=env, capture_output=True, text=True)
         secs = time.time() - t0
         if keep is not None:
             with open(ev, 'wb') as f:
                 f.write(keep)
+        # replay files of a coverage run are not kept either (the -O0 build is not one of the registered flavours)
+        if os.path.isdir(rdir):
+            for fn in os.listdir(rdir):
+                if fn not in before:
+                    os.unlink(os.path.join(rdir, fn))
+                elif open(os.path.join(rdir, fn), 'rb').read() != before[fn]:
+                    open(os.path.join(rdir, fn), 'wb').write(before[fn])
         lines, funcs = gcov_all(os.path.join(COVB, 'gcov-out'))
         rep = {'property': pid, 'tier': tier, 'repo_commit': head, 'check_exit': r.returncode, 'check_seconds': round(secs, 1),
                'summary_line': (r.stdout.strip().splitlines() or [''])[-1][:300], 'files': {}}
